@@ -1155,7 +1155,11 @@ class Explorer:
             self.stats.checks_concrete += 1
             av = a.v if isinstance(a, _SNum) else a
             bv = b.v if isinstance(b, _SNum) else b
-            ok = _frac(av) == _frac(bv)
+            if tol is not None and (isinstance(av, float) or isinstance(bv, float) or _isnpfloat(av) or _isnpfloat(bv)):
+                # two plain floats computed by the real code: compared up to the stated tolerance, as in replay mode
+                ok = abs(float(av) - float(bv)) <= tol * (1 + abs(float(av)) + abs(float(bv)))
+            else:
+                ok = _frac(av) == _frac(bv)
             if not ok:
                 self._violate(label, key, self._current_inputs(), detail or "%r != %r" % (av, bv))
             return ok
@@ -1180,6 +1184,27 @@ class Explorer:
 
     def check_le(self, a, b, label, key=None, required=True, tol=None, detail=None):
         return self.check(a <= b, label, key=key, required=required, detail=detail)
+
+    def external(self, label, status, inputs=None, key=None, required=True, detail=None, seconds=0.0, sample=None):
+        """record an obligation discharged outside the path explorer (engine E2: one SMT query over unbounded parameters).
+        status: 'proved' | 'refuted' (inputs = the model, replayed like any counterexample) | 'unknown'"""
+        self.stats.checks += 1
+        self.stats.checks_smt += 1
+        self.stats.queries += 1
+        self.stats.solver_s += seconds
+        self.asserted = True
+        if status == "proved":
+            self.stats.unsat += 1
+            if sample is not None and len(self.samples) < 6:
+                self.samples.append(sample)
+            return True
+        if status == "refuted":
+            self.stats.sat += 1
+            self._violate(label, key, inputs, detail)
+            return False
+        self.stats.unknown += 1
+        self._inconc("external", label, z3.BoolVal(True), required=required)
+        return None
 
     def _violate(self, label, key, inputs, detail, kind="assert"):
         key = key or label
@@ -1426,6 +1451,9 @@ class Concrete:
         if not ok:
             self.violations.append(Violation(label, key or label, None, detail or "%r != %r" % (a, b)))
         return ok
+
+    def external(self, *a, **k):
+        return None
 
     def check_le(self, a, b, label, key=None, required=True, tol=None, detail=None):
         tol = self.tol if tol is None else tol
